@@ -8,6 +8,7 @@ import (
 	"go/format"
 	"go/parser"
 	"go/token"
+	"io"
 	"sort"
 	"strings"
 
@@ -340,6 +341,22 @@ func checkGoString(m align.SubstitutionMatrix) string {
 	return ""
 }
 
+// chunkReader delivers at most n bytes per Read.
+type chunkReader struct {
+	data []byte
+	n    int
+}
+
+func (c *chunkReader) Read(p []byte) (int, error) {
+	if len(c.data) == 0 {
+		return 0, io.EOF
+	}
+	k := min(len(p), c.n, len(c.data))
+	copy(p, c.data[:k])
+	c.data = c.data[k:]
+	return k, nil
+}
+
 func runC20(r *core.Run) {
 	lists := labelLists(3)
 	r.Bound("tables", fmt.Sprintf("row and column label lists: every ordered list of 1..3 distinct labels from %q (%d lists each, so every order and rectangular shapes), scores cycling through %v with shift 0%s", ncbiLabels, len(lists), ncbiScores, core.Pick(r, "", "..5")))
@@ -503,6 +520,88 @@ func runC20(r *core.Run) {
 				return core.Failf("ReadNCBI(%q) (corruption %s) returned matrix %v, error %v; want (nil, error)", text, t.Corr, m, err)
 			}
 			return core.Outcome{Class: kind, Nontrivial: true}
+		})
+
+	type bigCase struct {
+		N     int    `json:"labels"`
+		Chunk int    `json:"read_chunk"` // 0 = whole input in one Read
+		Style string `json:"style"`      // "lf" | "crlf" | "nofinal" | "wide" (3-space separators, comments between rows)
+	}
+	r.Bound("big-tables", "square tables over the first N of 190 labels (bytes 0x21..0xFE without '#', '*' kept as gap) for N in {1,5,24,40,64,120,190} (text sizes 10 bytes .. 150 KiB, i.e. below and above the 4 KiB / 64 KiB buffer sizes), delivered whole and in reads of 1, 7, 512, 4096 and 4097 bytes, in LF / CRLF / no-final-newline / wide layouts")
+	core.Clause(r, "readncbi-big-tables", core.Opts{Rule: "large tables generated from a ground-truth map, every listed read size and layout; the decoded matrix must equal the ground truth pair for pair; non-trivial = all"},
+		func(emit func(bigCase) bool) {
+			for _, n := range []int{1, 5, 24, 40, 64, 120, 190} {
+				for _, ch := range []int{0, 1, 7, 512, 4096, 4097} {
+					for _, st := range []string{"lf", "crlf", "nofinal", "wide"} {
+						if n >= 120 && ch == 1 && st != "lf" {
+							continue
+						}
+						if !emit(bigCase{n, ch, st}) {
+							return
+						}
+					}
+				}
+			}
+		},
+		func(c bigCase) core.Outcome {
+			var labels []byte
+			for b := 0x21; b <= 0xfe && len(labels) < c.N; b++ {
+				if b != '#' {
+					labels = append(labels, byte(b))
+				}
+			}
+			truth := map[[2]byte]float64{}
+			sep, nl := " ", "\n"
+			if c.Style == "wide" {
+				sep = "   "
+			}
+			if c.Style == "crlf" {
+				nl = "\r\n"
+			}
+			var sb strings.Builder
+			sb.WriteString("# generated table" + nl + "  ")
+			for _, l := range labels {
+				sb.WriteString(sep + string([]byte{l}))
+			}
+			sb.WriteString(nl)
+			lb := func(b byte) byte {
+				if b == '*' {
+					return align.Gap
+				}
+				return b
+			}
+			for i, rl := range labels {
+				if c.Style == "wide" && i%7 == 3 {
+					sb.WriteString("# comment between rows" + nl + nl)
+				}
+				sb.WriteString(string([]byte{rl}))
+				for j, cl := range labels {
+					v := float64((i*31+j*17)%23-11) + float64((i+j)%4)*0.25
+					truth[[2]byte{lb(rl), lb(cl)}] = v
+					fmt.Fprintf(&sb, "%s%v", sep, v)
+				}
+				sb.WriteString(nl)
+			}
+			text := sb.String()
+			if c.Style == "nofinal" {
+				text = strings.TrimSuffix(text, nl)
+			}
+			var rd io.Reader = strings.NewReader(text)
+			if c.Chunk > 0 {
+				rd = &chunkReader{data: []byte(text), n: c.Chunk}
+			}
+			var m align.SubstitutionMatrix
+			var err error
+			if p := catch(func() { m, err = smtext.ReadNCBI(rd) }); p != "" {
+				return core.Failf("ReadNCBI panicked on a %dx%d table (%d bytes, reads of %d): %s", c.N, c.N, len(text), c.Chunk, p)
+			}
+			if err != nil {
+				return core.Failf("ReadNCBI failed on a well-formed %dx%d table (%d bytes, reads of %d, %s): %v", c.N, c.N, len(text), c.Chunk, c.Style, err)
+			}
+			if f := sameMatrix(m, truth); f != "" {
+				return core.Failf("ReadNCBI on a %dx%d table (%d bytes, reads of %d bytes, %s): %s", c.N, c.N, len(text), c.Chunk, c.Style, f)
+			}
+			return core.Outcome{Class: fmt.Sprint("n=", c.N), Nontrivial: true}
 		})
 
 	core.Clause(r, "symmetrical", core.Opts{Rule: "all 3^9 = 19683 partial matrices over {A,B,Gap}^2 (each pair absent / 1 / 2): panics iff a pair and its mirror are both present with different scores; otherwise result == pairs + mirrors and nothing else; receiver unchanged; writes to the result do not reach the receiver; non-trivial = at least 2 pairs present"},
